@@ -10,6 +10,7 @@ import TxV.Drv.C04
 import TxV.Drv.C18
 import TxV.Drv.Cfg
 import TxV.Drv.TorState
+import TxV.Drv.Prio
 open TxV.Drv
 
 def main (args : List String) : IO UInt32 := do
@@ -27,5 +28,6 @@ def main (args : List String) : IO UInt32 := do
   | ["C18"] => loop stdin stdout () C18.step; return 0
   | ["Cfg"] => loop stdin stdout ({} : TxV.Config.St) Cfg.step; return 0
   | ["TorState"] => loop stdin stdout ({} : TxV.TorState.St) TorState.step; return 0
+  | ["Prio"] => loop stdin stdout ({} : TxV.Attacher.St) Prio.step; return 0
   | ["Ctl"] => loop stdin stdout ({} : Ctl.St) Ctl.step; return 0
   | _ => IO.eprintln "usage: driver <property-id>"; return 2
